@@ -58,6 +58,7 @@ def make_ctx(vt, inst, f):
     """bind IR arguments to terms, applying the representation invariants of
     mask arguments (assumed on inputs, guaranteed on outputs)"""
     c = Ctx(vt, inst, f)
+    c.boolmem = []
     argterms = []
     argspecs = []
     names = []
@@ -72,6 +73,14 @@ def make_ctx(vt, inst, f):
             t = mask_arg_term(k, rep, vt)
             lb = rep[1] if rep[0] == "lane" else (1 if rep[0] == "bool" else 1)
             argspecs.append((bits, 1 if rep[0] != "lane" else rep[1], None))
+        elif kind == "LL8":
+            t = T.zext(T.arg(k, 0, 8), bits)
+            B = vt.eb
+            argspecs.append((bits, bits, (lambda v, B=B: v % (B + 1))))
+        elif kind == "BA":
+            t = T.arg(k, 0, bits)
+            c.boolmem.append(k)
+            argspecs.append((bits, 0, None))
         elif kind in ("V", "VI"):
             t = T.arg(k, 0, bits)
             argspecs.append((bits, vt.eb if kind == "V" else (bits // vt.n), None))
@@ -135,7 +144,7 @@ def analyse_job(job):
             continue
         try:
             ctx = make_ctx(vt, inst, f)
-            S = I.summarise(inst.fname, ctx.argterms)
+            S = I.summarise(inst.fname, ctx.argterms, ctx.boolmem)
             ctx.summary = S
             for u in S.unknown:
                 unknown[u] = unknown.get(u, 0) + 1
